@@ -1,11 +1,30 @@
 import Isotp.PyAgree.EvalLemmas
 import Isotp.Frame
+/-!
+  Source agreement for the small helpers of `isotp/protocol.py` and `isotp/tools.py`:
+
+  * `TransportLayerLogic._get_nearest_can_fd_size`  = `nearestFd`
+  * `TransportLayerLogic._get_dlc`                  = `dlcOf` (`validate_tx=True`) / `dlcOfNoValidate` (`validate_tx=False`)
+  * `PDU.craft_flow_control_data`                   = `fcData`
+  * `Timer.is_stopped / elapsed_ns / is_timed_out / remaining_ns / stop / start` = the model `Timer`
+
+  Everything is FOR ALL inputs.  The only qualified statements are the ones that read the clock: `Timer.elapsed_ns` and
+  `Timer.remaining_ns` agree with the model (which uses truncated `Nat` subtraction `now - s`) only when the clock did not go
+  backwards since the timer was started (`Mono t now`: `s ≤ now`); `time.perf_counter_ns` is monotonic, so this is a property of
+  the real clock, but it is a hypothesis here, and `remaining_ns_needs_mono` shows it cannot be dropped.
+  `Timer.is_timed_out` agrees with the model even without it (`timer_is_timed_out_linked`).
+-/
 namespace Isotp.PyAgree
 open Isotp Isotp.Py
 
+/-! ### value-level lemmas (order comparisons of integers, casts of literals, the builtins used here) -/
+
 theorem evalCmp_le_pint (a b : Int) : evalCmp .le (pint a) (pint b) = .ok (pbool (decide (a ≤ b))) := by
-  simp [evalCmp, isNumber, numLt, PyVal.pyEq, PyVal.isInt, PyVal.intVal, bind, Except.bind]
-  rw [Bool.eq_iff_iff]; simp only [Bool.or_eq_true, decide_eq_true_eq, beq_iff_eq]; omega
+  simp only [evalCmp, isNumber, numLt, PyVal.pyEq, PyVal.isInt, PyVal.intVal, bind, Except.bind]
+  by_cases h1 : a < b <;> by_cases h2 : a = b <;> by_cases h3 : a ≤ b <;> simp [h1, h2, h3] <;> omega
+theorem evalCmp_ge_pint (a b : Int) : evalCmp .ge (pint a) (pint b) = .ok (pbool (decide (b ≤ a))) := by
+  simp only [evalCmp, isNumber, numLt, PyVal.pyEq, PyVal.isInt, PyVal.intVal, bind, Except.bind]
+  by_cases h1 : b < a <;> by_cases h2 : a = b <;> by_cases h3 : b ≤ a <;> simp [h1, h2, h3] <;> omega
 theorem evalCmp_lt_pint (a b : Int) : evalCmp .lt (pint a) (pint b) = .ok (pbool (decide (a < b))) := by
   simp [evalCmp, isNumber, numLt, PyVal.isInt, PyVal.intVal, Except.map]
   rfl
@@ -13,16 +32,57 @@ theorem evalCmp_gt_pint (a b : Int) : evalCmp .gt (pint a) (pint b) = .ok (pbool
   simp [evalCmp, isNumber, numLt, PyVal.isInt, PyVal.intVal, Except.map]
   rfl
 
+/-- the integer literals of the source are `Int` literals; the values they are compared with are casts of `Nat`s -/
+theorem cast_le_lit (n k : Nat) : ((n : Int) ≤ (no_index (OfNat.ofNat k) : Int)) ↔ n ≤ (OfNat.ofNat k : Nat) := by
+  show (n : Int) ≤ ((k : Nat) : Int) ↔ n ≤ k
+  omega
+theorem lit_le_cast (n k : Nat) : ((no_index (OfNat.ofNat k) : Int) ≤ (n : Int)) ↔ (OfNat.ofNat k : Nat) ≤ n := by
+  show ((k : Nat) : Int) ≤ (n : Int) ↔ k ≤ n
+  omega
+theorem cast_lt_lit (n k : Nat) : ((n : Int) < (no_index (OfNat.ofNat k) : Int)) ↔ n < (OfNat.ofNat k : Nat) := by
+  show (n : Int) < ((k : Nat) : Int) ↔ n < k
+  omega
+theorem lit_lt_cast (n k : Nat) : ((no_index (OfNat.ofNat k) : Int) < (n : Int)) ↔ (OfNat.ofNat k : Nat) < n := by
+  show ((k : Nat) : Int) < (n : Int) ↔ k < n
+  omega
+theorem cast_eq_lit (n k : Nat) : ((n : Int) = (no_index (OfNat.ofNat k) : Int)) ↔ n = (OfNat.ofNat k : Nat) := by
+  show (n : Int) = ((k : Nat) : Int) ↔ n = k
+  omega
+
+theorem builtin_len_bytes (b : Bytes) : evalBuiltin "len" [.bytes b] = some (.ok (pint b.length)) := by simp [evalBuiltin]
+theorem builtin_max_pint (x y : Int) : evalBuiltin "max" [pint x, pint y] = some (.ok (pint (if y > x then y else x))) := by
+  simp [evalBuiltin, asInt, Sc.isInt, Sc.intVal, PyVal.isInt, PyVal.intVal]
+  split <;> rfl
+theorem builtin_bytes_list (xs : List Sc) : evalBuiltin "bytes" [.list xs] = some ((bytesOfScs xs).map .bytes) := by
+  simp [evalBuiltin]
+/-- the calls that are not builtins go to `Meths` -/
+theorem builtin_nearest (v : PV) : evalBuiltin "self._get_nearest_can_fd_size" [v] = none := by simp [evalBuiltin]
+theorem builtin_clock : evalBuiltin "time.perf_counter_ns" [] = none := by simp [evalBuiltin]
+theorem builtin_is_stopped : evalBuiltin "self.is_stopped" [] = none := by simp [evalBuiltin]
+theorem builtin_elapsed_ns : evalBuiltin "self.elapsed_ns" [] = none := by simp [evalBuiltin]
+theorem builtin_set_timeout (v : PV) : evalBuiltin "self.set_timeout" [v] = none := by simp [evalBuiltin]
+
+theorem pvEq_optPV_pnone (o : Option Nat) : pvEq (optPV o) pnone = o.isNone := by
+  cases o <;> simp [optPV]
+
+/-- value returned by a function body, the other methods it calls being given by `M` -/
+def retM (M : Meths) (env : Env) (body : PBlock) : Except PErr PV := (runFn M env body).map (·.1)
+/-- the environment (= the attributes of `self` and the locals) a function body ends with -/
+def envM (M : Meths) (env : Env) (body : PBlock) : Except PErr Env := (runFn M env body).map (·.2)
+
+/-- `some k` = the function returns `k`, `none` = it raises `ValueError` (the convention of the model) -/
+def optRes : Option Nat → Except PErr PV
+  | some k => .ok (pint k)
+  | none => .error (.exc .ValueError)
+
+/-! ### 1. `_get_nearest_can_fd_size` -/
+
 def sizeEnv (n : Nat) : Env := fun k =>
   match k with
   | "size" => some (pint n)
   | _ => constEnv k
 
-def nearestFdResult (n : Nat) : Except PErr PV :=
-  match nearestFd n with
-  | some k => .ok (pint k)
-  | none => .error (.exc .ValueError)
-
+/-- `if x <= c: return e` followed by `rest` -/
 theorem execBlock_if_le_ret (M : Meths) (env : Env) (x : String) (n c : Int) (e : PExpr) (rest : PBlock)
     (hs : env x = some (pint n)) :
     execBlock M env (.cons (.ite (.cmp .le (.var x) (.int c)) (.cons (.ret e) .nil) .nil) rest) =
@@ -30,11 +90,187 @@ theorem execBlock_if_le_ret (M : Meths) (env : Env) (x : String) (n c : Int) (e 
   by_cases h : n ≤ c <;> simp [execBlock, execStmt, eval, hs, evalCmp_le_pint, h]
 
 theorem get_nearest_can_fd_size_agrees (n : Nat) :
-    retOf (sizeEnv n) Src.TransportLayerLogic_p_get_nearest_can_fd_size = nearestFdResult n := by
+    retOf (sizeEnv n) Src.TransportLayerLogic_p_get_nearest_can_fd_size = optRes (nearestFd n) := by
   have hs : sizeEnv n "size" = some (pint n) := rfl
-  simp only [retOf, runFn, Src.TransportLayerLogic_p_get_nearest_can_fd_size, execBlock_if_le_ret _ _ _ _ _ _ _ hs, nearestFd, nearestFdResult]
-  repeat' split
-  all_goals simp_all [execBlock, execStmt, eval]
-  all_goals omega
+  simp only [retOf, runFn, Src.TransportLayerLogic_p_get_nearest_can_fd_size, execBlock_if_le_ret _ _ _ _ _ _ _ hs, nearestFd,
+    cast_le_lit]
+  simp only [eval, hs, ok_bind, execBlock, execStmt]
+  by_cases h8 : n ≤ 8 <;> simp [h8, optRes]
+  by_cases h12 : n ≤ 12 <;> simp [h12]
+  by_cases h16 : n ≤ 16 <;> simp [h16]
+  by_cases h20 : n ≤ 20 <;> simp [h20]
+  by_cases h24 : n ≤ 24 <;> simp [h24]
+  by_cases h32 : n ≤ 32 <;> simp [h32]
+  by_cases h48 : n ≤ 48 <;> simp [h48]
+  by_cases h64 : n ≤ 64 <;> simp [h64]
+
+theorem get_nearest_can_fd_size_some (n k : Nat) (h : nearestFd n = some k) :
+    retOf (sizeEnv n) Src.TransportLayerLogic_p_get_nearest_can_fd_size = .ok (pint k) := by
+  rw [get_nearest_can_fd_size_agrees, h]; rfl
+
+theorem get_nearest_can_fd_size_none (n : Nat) (h : nearestFd n = none) :
+    retOf (sizeEnv n) Src.TransportLayerLogic_p_get_nearest_can_fd_size = .error (.exc .ValueError) := by
+  rw [get_nearest_can_fd_size_agrees, h]; rfl
+
+/-! ### 2. `_get_dlc` -/
+
+def dlcEnv (d : Bytes) (validateTx : Bool) (txdl : Nat) : Env := fun k =>
+  match k with
+  | "data" => some (.bytes d)
+  | "validate_tx" => some (pbool validateTx)
+  | "self.params.tx_data_length" => some (pint txdl)
+  | _ => constEnv k
+
+/-- `self._get_nearest_can_fd_size(n)` is what `get_nearest_can_fd_size_agrees` proves about its source
+    (called with `len(data)`, a natural number). -/
+def dlcMeths : Meths where
+  fn name args _ :=
+    match name, args with
+    | "self._get_nearest_can_fd_size", [.sc (.py (.int i))] =>
+        if 0 ≤ i then optRes (nearestFd i.toNat) else .error (.unsupported "negative size")
+    | _, _ => .error (.unsupported ("call " ++ name))
+  proc name _ _ := .error (.unsupported ("call " ++ name))
+
+theorem dlcMeths_nearest (n : Nat) (env : Env) :
+    dlcMeths.fn "self._get_nearest_can_fd_size" [pint n] env = retOf (sizeEnv n) Src.TransportLayerLogic_p_get_nearest_can_fd_size := by
+  rw [get_nearest_can_fd_size_agrees]
+  simp [dlcMeths]
+
+/-- `_get_dlc(data, validate_tx=False)`: `dlcOf` without the `tx_data_length == 8` check -/
+def dlcOfNoValidate (n : Nat) : Option Nat :=
+  match nearestFd n with
+  | none => none
+  | some f =>
+    if 2 ≤ f && f ≤ 8 then some f
+    else if f = 12 then some 9
+    else if f = 16 then some 10
+    else if f = 20 then some 11
+    else if f = 24 then some 12
+    else if f = 32 then some 13
+    else if f = 48 then some 14
+    else if f = 64 then some 15
+    else none
+
+theorem dlcOf_eq_noValidate (c : Cfg) (n : Nat) (h : c.txDl ≠ 8) : dlcOf c n = dlcOfNoValidate n := by
+  unfold dlcOf dlcOfNoValidate
+  cases nearestFd n <;> simp [h]
+
+/-- the `if / elif` chain of `_get_dlc` (its last two statements), for ANY value of `fdlen` -/
+def dlcChain (f : Nat) : Option Nat :=
+  if 2 ≤ f && f ≤ 8 then some f
+  else if f = 12 then some 9
+  else if f = 16 then some 10
+  else if f = 20 then some 11
+  else if f = 24 then some 12
+  else if f = 32 then some 13
+  else if f = 48 then some 14
+  else if f = 64 then some 15
+  else none
+
+theorem get_dlc_chain (M : Meths) (env : Env) (f : Nat) (hf : env "fdlen" = some (pint f)) :
+    (match Src.TransportLayerLogic_p_get_dlc with
+     | .cons _ (.cons _ rest) => retM M env rest
+     | _ => .error (.unsupported "")) = optRes (dlcChain f) := by
+  simp only [Src.TransportLayerLogic_p_get_dlc, retM, runFn, dlcChain]
+  simp only [execBlock, execStmt, eval, hf, ok_bind, evalCmp_le_pint, evalCmp_ge_pint, evalCmp_eq, pvEq_pint, truthy_pbool,
+    cast_le_lit, lit_le_cast, cast_eq_lit, beq_iff_eq, decide_eq_true_eq]
+  by_cases h2 : 2 ≤ f <;> by_cases h8 : f ≤ 8 <;> simp [h2, h8, optRes]
+  all_goals
+    by_cases h12 : f = 12 <;> simp [h12]
+    by_cases h16 : f = 16 <;> simp [h16]
+    by_cases h20 : f = 20 <;> simp [h20]
+    by_cases h24 : f = 24 <;> simp [h24]
+    by_cases h32 : f = 32 <;> simp [h32]
+    by_cases h48 : f = 48 <;> simp [h48]
+    by_cases h64 : f = 64 <;> simp [h64]
+
+/-- first statement: `fdlen = self._get_nearest_can_fd_size(len(data))` -/
+theorem get_dlc_stmt1 (d : Bytes) (v : Bool) (txdl : Nat) :
+    execStmt dlcMeths (dlcEnv d v txdl)
+        (.assign "fdlen" (.call "self._get_nearest_can_fd_size" (.cons (.call "len" (.cons (.var "data") .nil)) .nil))) =
+      match nearestFd d.length with
+      | some f => .ok (.next ((dlcEnv d v txdl).set "fdlen" (pint f)))
+      | none => .error (.exc .ValueError) := by
+  cases h : nearestFd d.length <;>
+    simp [execStmt, eval, evalArgs, dlcEnv, builtin_len_bytes, builtin_nearest, dlcMeths, h, optRes]
+
+/-- second statement: the `validate_tx` check -/
+theorem get_dlc_stmt2 (M : Meths) (env : Env) (v : Bool) (txdl f : Nat)
+    (hv : env "validate_tx" = some (pbool v)) (ht : env "self.params.tx_data_length" = some (pint txdl))
+    (hf : env "fdlen" = some (pint f)) :
+    execStmt M env
+        (.ite (.var "validate_tx") (.cons (.ite (.cmp .eq (.var "self.params.tx_data_length") (.int (8)))
+          (.cons (.ite (.or_ (.cmp .lt (.var "fdlen") (.int (2))) (.cmp .gt (.var "fdlen") (.int (8)))) (.cons (.raise "ValueError") .nil) .nil)
+          .nil) .nil) .nil) .nil) =
+      if v && txdl = 8 && (f < 2 || f > 8) then .error (.exc .ValueError) else .ok (.next env) := by
+  cases v <;> by_cases h8 : txdl = 8 <;> by_cases h2 : f < 2 <;> by_cases h9 : 8 < f <;>
+    simp [execBlock, execStmt, eval, hv, ht, hf, h8, h2, h9, evalCmp_lt_pint, evalCmp_gt_pint, cast_lt_lit, lit_lt_cast, cast_eq_lit]
+
+/-- `_get_dlc(data, validate_tx)` in one formula -/
+def dlcGen (validateTx : Bool) (txdl n : Nat) : Option Nat :=
+  match nearestFd n with
+  | none => none
+  | some f => if validateTx && txdl = 8 && (f < 2 || f > 8) then none else dlcChain f
+
+theorem get_dlc_agrees_gen (d : Bytes) (v : Bool) (txdl : Nat) :
+    retM dlcMeths (dlcEnv d v txdl) Src.TransportLayerLogic_p_get_dlc = optRes (dlcGen v txdl d.length) := by
+  have hc := fun env f hf => get_dlc_chain dlcMeths env f hf
+  simp only [Src.TransportLayerLogic_p_get_dlc, retM, runFn] at hc ⊢
+  rw [execBlock, get_dlc_stmt1, dlcGen]
+  cases nearestFd d.length with
+  | none => rfl
+  | some f =>
+    have hv : ((dlcEnv d v txdl).set "fdlen" (pint f)) "validate_tx" = some (pbool v) := rfl
+    have ht : ((dlcEnv d v txdl).set "fdlen" (pint f)) "self.params.tx_data_length" = some (pint txdl) := rfl
+    have hf : ((dlcEnv d v txdl).set "fdlen" (pint f)) "fdlen" = some (pint f) := rfl
+    simp only [ok_bind]
+    rw [execBlock, get_dlc_stmt2 _ _ v txdl f hv ht hf]
+    by_cases hcnd : (v && txdl = 8 && (f < 2 || f > 8)) = true
+    · simp only [hcnd, if_true]; rfl
+    · simp only [hcnd]
+      exact hc _ f hf
+
+theorem get_dlc_agrees (c : Cfg) (d : Bytes) :
+    retM dlcMeths (dlcEnv d true c.txDl) Src.TransportLayerLogic_p_get_dlc = optRes (dlcOf c d.length) := by
+  rw [get_dlc_agrees_gen]
+  unfold dlcGen dlcOf dlcChain
+  cases nearestFd d.length <;> simp
+
+theorem get_dlc_agrees_noValidate (d : Bytes) (txdl : Nat) :
+    retM dlcMeths (dlcEnv d false txdl) Src.TransportLayerLogic_p_get_dlc = optRes (dlcOfNoValidate d.length) := by
+  rw [get_dlc_agrees_gen]
+  unfold dlcGen dlcOfNoValidate dlcChain
+  cases nearestFd d.length <;> simp
+
+/-! ### 3. `PDU.craft_flow_control_data` -/
+
+def fcEnv (s b st : Nat) : Env := fun k =>
+  match k with
+  | "flow_status" => some (pint s)
+  | "blocksize" => some (pint b)
+  | "stmin" => some (pint st)
+  | _ => constEnv k
+
+/-- `0x30 | (flow_status & 0xF)` (Python precedence: `&` binds tighter than `|`) is `0x30 + flow_status % 16` -/
+theorem or_30_and_f (s : Nat) : 48 ||| (s &&& 15) = 48 + s % 16 := by
+  rw [and_f]
+  have h : ∀ k, k < 16 → 48 ||| k = 48 + k := by decide
+  exact h _ (Nat.mod_lt _ (by decide))
+
+theorem craft_flow_control_data_agrees (s b st : Nat) :
+    retOf (fcEnv s b st) Src.PDU_craft_flow_control_data = .ok (.bytes (fcData s b st)) := by
+  have h1 : 0 ≤ 48 + (s : Int) % 16 := by omega
+  have h2 : 48 + (s : Int) % 16 ≤ 255 := by omega
+  have h3 : 0 ≤ (b : Int) % 256 := by omega
+  have h4 : (b : Int) % 256 ≤ 255 := by omega
+  have h5 : 0 ≤ (st : Int) % 256 := by omega
+  have h6 : (st : Int) % 256 ≤ 255 := by omega
+  simp [retOf, runFn, Src.PDU_craft_flow_control_data, execBlock, execStmt, eval, evalArgs, fcEnv, Int.natCast_nonneg,
+    builtin_bytes_list, bytesOfScs, or_30_and_f, and_ff, Sc.isInt, Sc.intVal, PyVal.isInt, PyVal.intVal, h1, h2, h3, h4, h5, h6]
+  have e1 : (48 + (s : Int) % 16).toNat = 48 + s % 16 := by omega
+  have e2 : ((b : Int) % 256).toNat = b % 256 := by omega
+  have e3 : ((st : Int) % 256).toNat = st % 256 := by omega
+  rw [e1, e2, e3]
+  rfl
 
 end Isotp.PyAgree
